@@ -135,41 +135,7 @@ def run(check, an: Analysis):
                    where_fn(unsub.fn), 'a delivered signal is revoked, a parked one is '
                    'removed from the waiter list: %s' % forms)
     # ---- suppress -------------------------------------------------------------
-    for recv in _scope.scope_receivers(an):
-        method = an.p.find_method(recv, '_is_suppressed')
-        if method.cls.qn != recv:
-            continue
-        label = recv.rsplit('.', 1)[-1]
-        expr = c08._single_return(method)
-        atoms = _or_atoms(expr) if expr is not None else []
-        param = method.node.args.args[1].arg
-        verdict, notes = bool(atoms), []
-        chained = False
-        own = []
-        for atom in atoms:
-            text = ast.unparse(atom)
-            if isinstance(atom, ast.Compare) and len(atom.ops) == 1 and \
-                    isinstance(atom.ops[0], ast.Is) and ast.unparse(atom.left) == param \
-                    and isinstance(atom.comparators[0], ast.Attribute) and \
-                    ast.unparse(atom.comparators[0].value) == 'self':
-                attr = atom.comparators[0].attr
-                if _is_own_signal(an, recv, attr):
-                    own.append(attr)
-                else:
-                    verdict = False
-                    notes.append('%s is not a signal created by this scope' % text)
-            elif text == 'super()._is_suppressed(%s)' % param:
-                chained = True
-            elif recv == _scope.ENV_SCOPE and text == 'isinstance(%s, StopSimulation)' % param:
-                notes.append('SimPy scope absorbs StopSimulation (its own stop marker)')
-            else:
-                verdict = False
-                notes.append('`%s` is not an identity test against an own signal' % text)
-        if recv != SCOPE:
-            verdict = verdict and chained
-        check.instance('suppress', '%s._is_suppressed' % label, verdict, where_fn(method),
-                       'own signals %s%s; %s' % (own, ', chained to super()' if chained
-                                                 else '', '; '.join(notes) or 'ok'))
+    _scope.check_suppression(check, an, 'suppress')
     aexit = an.callee(ISCOPE, '__aexit__')
     summ = an.it.summary(aexit, 'exc:' + CANCEL_SCOPE)
     silent = [p for p in summ.paths if p.kind == 'return' and len(p.outcome) > 2
